@@ -109,6 +109,9 @@ pub struct World {
     pub executed: u64,
     /// leading bytes for the next generated key (consumed by it)
     pub key_prefix: Option<Vec<u8>>,
+    /// (pool, start index) of tick arrays the program let a hostile client create at a start index that is not a
+    /// multiple of 88 x spacing (never on a correct tree); clients then use them for the ticks they contain
+    pub rogue_arrays: Vec<(usize, i32)>,
 }
 
 pub fn floor_div(a: i32, b: i32) -> i32 {
@@ -135,6 +138,7 @@ impl World {
             positions: vec![],
             executed: 0,
             key_prefix: None,
+            rogue_arrays: vec![],
         }
     }
 
@@ -646,10 +650,14 @@ impl World {
     /// Both tick arrays of a position's bounds.
     pub fn pos_arrays(&self, pi: &PosInfo) -> (Pubkey, Pubkey) {
         let sp = self.pools[pi.pool].tick_spacing;
-        (
-            self.tick_array_key(pi.pool, array_start(pi.lower, sp)),
-            self.tick_array_key(pi.pool, array_start(pi.upper, sp)),
-        )
+        let home = |t: i32| -> Pubkey {
+            let tia = 88 * sp as i32;
+            match self.rogue_arrays.iter().find(|(p, s)| *p == pi.pool && *s <= t && t < *s + tia) {
+                Some((_, s)) => self.tick_array_key(pi.pool, *s),
+                None => self.tick_array_key(pi.pool, array_start(t, sp)),
+            }
+        };
+        (home(pi.lower), home(pi.upper))
     }
 
     pub fn modify_v1(&mut self, i: usize) -> b::ModifyLiquidity {
